@@ -223,8 +223,8 @@ func (a *Analyzer) MergoModelAssumptions() []RuleResult {
 
 // WholeDocumentDecoded (B-EOF): a function of the module that reads a schema with (*json.Decoder).Decode reads ONE value from a
 // stream; whatever follows that value in the file is not looked at by Decode. Every return of such a function that reports success
-// (a nil error) and is reachable from the Decode call must be dominated by an end-of-input test on the same decoder
-// (Token / More / Buffered), otherwise a file with trailing garbage is accepted as if it were the schema.
+// (a nil error) and is reachable from the Decode call must lie on the io.EOF side of a further read on the same decoder
+// (Token, or a second Decode), otherwise a file with trailing garbage is accepted as if it were the schema.
 func (a *Analyzer) WholeDocumentDecoded() []RuleResult {
 	var out []RuleResult
 	n := 0
@@ -236,16 +236,38 @@ func (a *Analyzer) WholeDocumentDecoded() []RuleResult {
 			}
 			n++
 			dec := c.Common().Args[0]
-			var tests []ssa.Instruction
+			// an end-of-input test: a FURTHER read on the same decoder (Token, or a second Decode) whose error is compared with io.EOF;
+			// the block entered when the error IS io.EOF is where "nothing follows the document" is known.
+			// (Decoder.More is not such a test: it answers false in front of a stray '}' or ']' and on read errors.)
+			var eofBlocks []*ssa.BasicBlock
 			for _, e := range Calls(f) {
 				switch shortCallee(e) {
-				case "(*encoding/json.Decoder).Token", "(*encoding/json.Decoder).More", "(*encoding/json.Decoder).Buffered":
-					if e.Common().Args[0] == dec && InstrReaches(c.(ssa.Instruction), e.(ssa.Instruction)) {
-						tests = append(tests, e.(ssa.Instruction))
+				case "(*encoding/json.Decoder).Token", "(*encoding/json.Decoder).Decode":
+				default:
+					continue
+				}
+				ev, isVal := e.(ssa.Value)
+				if e == c || !isVal || e.Common().Args[0] != dec || !InstrReaches(c.(ssa.Instruction), e.(ssa.Instruction)) {
+					continue
+				}
+				derived := map[ssa.Value]bool{ev: true}
+				for _, r := range refs(ev) {
+					if x, ok := r.(*ssa.Extract); ok {
+						derived[x] = true
+					}
+				}
+				for _, blk := range f.Blocks {
+					if len(blk.Instrs) == 0 {
+						continue
+					}
+					if t, ok := blk.Instrs[len(blk.Instrs)-1].(*ssa.If); ok {
+						if side, ok := eofTestSide(t.Cond, func(v ssa.Value) bool { return derived[v] }); ok {
+							eofBlocks = append(eofBlocks, blk.Succs[side])
+						}
 					}
 				}
 			}
-			ok, why := true, fmt.Sprintf("%d end-of-input test(s) on the decoder dominate every successful return", len(tests))
+			ok, why := true, fmt.Sprintf("every successful return lies on the io.EOF side of %d end-of-input test(s) on the decoder", len(eofBlocks))
 			for _, b := range f.Blocks {
 				for _, in := range b.Instrs {
 					r, isRet := in.(*ssa.Return)
@@ -258,13 +280,13 @@ func (a *Analyzer) WholeDocumentDecoded() []RuleResult {
 						continue // returns an error
 					}
 					dominated := false
-					for _, t := range tests {
-						if t.Block().Dominates(b) {
+					for _, eb := range eofBlocks {
+						if eb.Dominates(b) {
 							dominated = true
 						}
 					}
 					if !dominated {
-						ok, why = false, "the successful return at "+a.P.InstrPos(r)+" is reached after Decode without any test that the input ends there (Decoder.Token / More / Buffered): a document followed by arbitrary trailing bytes is accepted"
+						ok, why = false, "the successful return at "+a.P.InstrPos(r)+" is reached after Decode without a further read on the decoder that ended in io.EOF (Decoder.Token or a second Decode; Decoder.More is no end-of-input test: it is false in front of a stray '}' or ']'): a document followed by trailing bytes is accepted"
 					}
 				}
 			}
